@@ -12,7 +12,7 @@ for line in sys.stdin:
     o = parsesuite.run_impl(c)
     world = decl.World()
     txt = parsesuite.coq_case(world, c, o)
-    body = "Definition RE := (re_table []).\n%s\nDefinition DD : decls := %s.\nEval vm_compute in (run_case DD %s).\n" % (
+    body = "Definition RE := (re_std []).\n%s\nDefinition DD : decls := %s.\nEval vm_compute in (run_case DD %s).\n" % (
         parsesuite.PRELUDE % 40, world.decls_term(), txt)
     rc, out = core.coq_eval("dbg_%d" % os.getpid(), ["Parse"], body)
     print("IMPL :", o)
